@@ -5,6 +5,7 @@ import (
 	"reflect"
 	"sort"
 
+	"github.com/advancedclimatesystems/gonnx"
 	"github.com/advancedclimatesystems/gonnx/ops/opset13"
 	"gorgonia.org/tensor"
 )
@@ -36,9 +37,12 @@ func gateCase(name string, dts []*string) *Case {
 			ins[i] = nil
 			if d != nil {
 				// different shapes at different positions (a gate has no business reshaping or
-				// broadcasting what it is handed)
+				// broadcasting what it is handed); every third case: rank-0 tensors everywhere (gorgonia reports
+				// DataSize 0 for them: a scalar is a tensor like any other, at optional positions too)
 				t := dummyOf(*d)
-				if sh := [][]int{nil, {3}, {1}, nil, {2}}[i%5]; sh != nil && len(t.Data) > 0 {
+				if gateCounter%3 == 2 && len(t.Data) > 0 {
+					t = &TJ{Dt: t.Dt, Shape: []int{}, Data: t.Data[:1]}
+				} else if sh := [][]int{nil, {3}, {1}, nil, {2}}[i%5]; sh != nil && len(t.Data) > 0 {
 					t = &TJ{Dt: t.Dt, Shape: sh}
 					for k := 0; k < nelem(sh); k++ {
 						t.Data = append(t.Data, dummyOf(*d).Data[0])
@@ -249,6 +253,24 @@ func genC15(e *emitter, tier string) {
 		e.emit(graphCase("empty-name-bound", &GraphJ{Inputs: vin, Inits: []InitJ{W, R, wm, {Name: "", T: smallT("f32", []int{2, 2}, 7)}},
 			Nodes: []NodeJ{rnn2, {Op: "Squeeze", Ins: []string{"Y2", ""}, Outs: []string{"s"}}, {Op: "Squeeze", Ins: []string{"x"}, Outs: []string{"x2"}}, {Op: "Gemm", Ins: []string{"wm", "wm", ""}, Outs: []string{"g"}}}, Outputs: []string{"Y2", "s", "g"}}, []NamedT{x}))
 	}
+	// the gate on a Model that has already executed the node (every Run gates anew): every element type at
+	// every position of the example node of every operator, after one completed Run
+	for _, name := range names {
+		ex, ok := exampleCases[name]
+		if !ok {
+			continue
+		}
+		for p := range ex.Inputs {
+			if ex.Inputs[p] == nil {
+				continue
+			}
+			for _, d := range allDts {
+				if d != ex.Inputs[p].Dt {
+					e.emit(gateRunCase(name, p, d))
+				}
+			}
+		}
+	}
 	// names outside the opset
 	for _, bad := range []string{"", "abs", "ABS", "Abs ", " Abs", "Abs\n", "\tRelu", "Conv2D", "Foo", "Gelu", "MaxPool", "Relu6", "Rel", "lstm", "Lstm", "Identity", "Dropout", "ai.onnx.Relu", "Relu:13", "Add,Sub"} {
 		c := &Case{Kind: "lookup", Op: bad, P: map[string]any{"registered": false}}
@@ -319,6 +341,76 @@ func freshCase(name string) *Case {
 			"distinct": distinct, "other_unchanged": s2 == s0, "later_default": s3 == s0,
 			"used": used, "state_changed_by_use": s1 != s0,
 		}}
+	})
+	return c
+}
+
+// gateRunCase: the gate as a long-lived Model applies it. One Model with a single node of the operator
+// (the example node) first completes a Run with acceptable inputs; a later Run of the SAME Model then
+// supplies element type dt at position p (same shape). Whatever Run remembers of a node it has already
+// executed, every Run gates its inputs anew.
+func gateRunCase(name string, p int, dt string) *Case {
+	ex := exampleCases[name]
+	c := &Case{Kind: "gate-run", Op: name, Stream: "gate-on-every-run", P: map[string]any{"desc": liveDesc(name, len(ex.Inputs)), "pos": p, "dt": dt}}
+	for i, t := range ex.Inputs {
+		switch {
+		case t == nil:
+			c.Dts = append(c.Dts, nil)
+		case i == p:
+			c.Dts = append(c.Dts, sp(dt))
+		default:
+			c.Dts = append(c.Dts, sp(t.Dt))
+		}
+	}
+	c.Impl = guard(func() *Result {
+		g := &GraphJ{}
+		node := NodeJ{Op: name, Attrs: ex.Attrs}
+		good := gonnx.Tensors{}
+		for i, t := range ex.Inputs {
+			if t == nil {
+				node.Ins = append(node.Ins, "")
+				continue
+			}
+			n := fmt.Sprintf("in%d", i)
+			node.Ins = append(node.Ins, n)
+			g.Inputs = append(g.Inputs, VInfoJ{Name: n, Dt: t.Dt, NoShape: true, How: "shape"})
+			good[n] = mkTensor(t)
+		}
+		for i := range ex.Outputs {
+			node.Outs = append(node.Outs, fmt.Sprintf("out%d", i))
+		}
+		if len(node.Outs) == 0 {
+			node.Outs = []string{"out0"}
+		}
+		g.Nodes, g.Outputs = []NodeJ{node}, []string{node.Outs[0]}
+		m, err := loadModel(g)
+		if err != nil {
+			return &Result{Status: "skip", Msg: "load: " + err.Error()}
+		}
+		if _, err := m.Run(good); err != nil {
+			return &Result{Status: "skip", Msg: "first run: " + err.Error()}
+		}
+		if p >= len(ex.Inputs) || ex.Inputs[p] == nil {
+			return &Result{Status: "skip", Msg: "no input at this position"}
+		}
+		bad := gonnx.Tensors{}
+		for k, v := range good {
+			bad[k] = v
+		}
+		src := ex.Inputs[p]
+		alt := &TJ{Dt: dt, Shape: src.Shape}
+		for range src.Data {
+			alt.Data = append(alt.Data, dummyOf(dt).Data[0])
+		}
+		if len(alt.Data) != nelem(src.Shape) {
+			return &Result{Status: "skip", Msg: "example input carried as bits"}
+		}
+		bad[fmt.Sprintf("in%d", p)] = mkTensor(alt)
+		outs, err := m.Run(bad)
+		if err != nil {
+			return errResult(err)
+		}
+		return &Result{Status: "ok", Extra: map[string]any{"n_outs": len(outs)}}
 	})
 	return c
 }
